@@ -19,11 +19,10 @@ ASSUMPTIONS = ['the conversion of a key to the looked-up column type is taken fr
                'a bool compared with an equal number (True == 1), CONTAINS on a non-list column, list-valued keys and '
                'equality lookups on RefList columns are not judged (counted as skipped); an error cell is accepted where the '
                'sort values are not mutually comparable (e.g. references mixed with alt text raise InvalidTypedValue)',
-               'open finding unhashable_lookup_key_loses_dependency: columns probed with equality are never retyped to RefList '
-               'in the random stream (its trigger); open finding docaction_type_change_keeps_wrong_typed_numbers: its trigger '
-               'state (whole floats held in an Int/Ref column after an undone/redone type change) is detected from the raw '
-               'reply, attributed by mechanism, and the cells are rewritten before the history continues; both have '
-               'deterministic witnesses in every run',
+               'two findings of this check were repaired in /repo (2d65959 ModifyColumn doc action kept whole floats in Int/Ref '
+               'columns after an undone type change; c81b065 a lookup raising on an unhashable key lost its dependency): their '
+               'deterministic witnesses run in every run as regression tests, and the state "whole float held in an Int/Ref '
+               'column" is still looked for in the raw reply after every bundle and reported by mechanism if it comes back',
                'columns named in a legacy sort_by= argument and group-by columns of the summary tables are not renamed']
 REQUIRED = {'cells_compared': {'quick': 1500000, 'thorough': 20000000},
             'cells_order_judged': {'quick': 1000000, 'thorough': 15000000},
@@ -59,7 +58,7 @@ MATCH_EMPTY = [LO.SKIP, LO.SKIP, 0, '', None, 'a', 1]       # SKIP = no match_em
 
 
 def plan(tier, seed):
-  w = [{'witness': 'all'}]      # deterministic witnesses of the open findings (one small shard)
+  w = [{'witness': 'all'}]      # deterministic regression witnesses of the two repaired findings (one small shard)
   if tier == 'quick':
     return w + [{'hseed': seed * 100003 + i, 'steps': 130} for i in range(15)]
   return w + [{'hseed': seed * 100003 + 5000 + i, 'steps': 450} for i in range(63)]
@@ -150,7 +149,7 @@ class Doc(object):
     self.specs = make_specs(rnd)
     self.qcols = ['K1', 'K2']
     self.reported_known = False
-    self.allow_reflist = False      # spec flag 'allow_reflist': only to try a repaired tree by hand
+    self.no_reflist = False
 
   def cur(self, col):
     return self.names.get(col, col)
@@ -250,10 +249,10 @@ class Doc(object):
     if kind == 'retype':
       c = rnd.choice(cols)
       choices = SORT_TYPE_CHOICES if c in SORT_ALPHA else KEY_TYPE_CHOICES
-      if c != 'RL' and not self.allow_reflist:
-        # Trigger of the open finding unhashable_lookup_key_loses_dependency (see its witness): an
-        # equality lookup on a RefList column raises, and the cell is never evaluated again. Only RL,
-        # which is probed with CONTAINS alone, may be (or stop being) a reference list.
+      if c != 'RL' and self.no_reflist:
+        # Spec flag 'no_reflist' (off in every planned shard): keeps the columns probed with equality from
+        # becoming reference lists. That was the trigger of the finding unhashable_lookup_key_loses_dependency
+        # (repaired in /repo c81b065, see its witness); since the repair the trigger is part of the stream.
         choices = [x for x in choices if not x.startswith('RefList')]
       t = rnd.choice([x for x in choices if x != self.types[c]])
       return ['ModifyColumn', 'T', self.cur(c), {'type': t}]
@@ -510,7 +509,7 @@ KNOWN_FLOAT_IN_INT = 'docaction_type_change_keeps_wrong_typed_numbers'
 
 
 def wrong_typed_numbers(raw, S):
-  """Open finding (see witness_float_in_int_column): cells of an Int / Ref column that hold a whole
+  """Finding repaired in /repo 2d65959 (see witness_float_in_int_column): cells of an Int / Ref column that hold a whole
   *float* in the engine (formulas see them as alt text although every client sees a number).
   raw = reply of verif_snapshot (marshal keeps int/float apart). Returns {(table, col): [row ids]}."""
   out = {}
@@ -534,13 +533,13 @@ def snap2(p):
 
 
 def witness_float_in_int_column(acc):
-  """Open finding. Int column S1 = [3, 1, 2, 1]; ModifyColumn S1 {type: Numeric}; undo. The stored and
+  """Regression witness of a finding repaired in /repo 2d65959. Int column S1 = [3, 1, 2, 1]; ModifyColumn S1 {type: Numeric}; undo. The stored and
   undo actions carry no record action for 3 <-> 3.0 (same encoding), and the ModifyColumn *doc action*
   copies the raw values, so after the undo the Int column holds floats, which formulas see as alt
   text: lookupRecords(order_by='S1') returns id order, lookupRecords(S1=1) finds nothing."""
   from vlib.client import EngineProc
   from vlib import snapshot
-  with EngineProc() as p:
+  with EngineProc(timeout=240.0) as p:
     p.init_doc()
     p.apply([['AddTable', 'T', [{'id': 'S1', 'type': 'Int', 'isFormula': False}]]])
     p.apply([['BulkAddRecord', 'T', [None] * 4, {'S1': [3, 1, 2, 1]}]])
@@ -566,13 +565,13 @@ KNOWN_UNHASHABLE = 'unhashable_lookup_key_loses_dependency'
 
 
 def witness_unhashable_key(acc):
-  """Open finding. T.Tx is a RefList column; Q.P = [r.id for r in T.lookupRecords(Tx=1)] raises TypeError
+  """Regression witness of a finding repaired in /repo c81b065. T.Tx is a RefList column; Q.P = [r.id for r in T.lookupRecords(Tx=1)] raises TypeError
   (the converted key is an unhashable record set) *before* the dependency on the lookup index is
   registered. ModifyColumn Tx {type: Int}, UpdateRecord T 2 {Tx: 1}: P is never evaluated again and
   keeps the error, where the lookup is now valid and matches row 2."""
   from vlib.client import EngineProc
   from vlib import snapshot
-  with EngineProc() as p:
+  with EngineProc(timeout=240.0) as p:
     p.init_doc()
     p.apply([['AddTable', 'T2', [{'id': 'N', 'type': 'Text', 'isFormula': False}]]])
     p.apply([['AddTable', 'T', [{'id': 'Tx', 'type': 'RefList:T2', 'isFormula': False}]]])
@@ -601,10 +600,10 @@ def run_shard(spec, acc):
     witness_unhashable_key(acc)
     return None
   rnd = random.Random(spec['hseed'])
-  with EngineProc(timeout=60.0) as p:
+  with EngineProc(timeout=240.0) as p:
     try:
       doc = Doc(p, rnd, acc)
-      doc.allow_reflist = bool(spec.get('allow_reflist'))
+      doc.no_reflist = bool(spec.get('no_reflist'))
       doc.build()
       S = doc.snap()
       doc.colrefs = {c: LO.col_ref(S, 'T', c) for c in list(doc.types) + ['FK']}
@@ -628,7 +627,7 @@ def run_shard(spec, acc):
           doc.resync(S)
         bad = wrong_typed_numbers(raw, S)
         if bad:
-          # Trigger state of the open finding: attribute it by mechanism (it must come from replayed
+          # Trigger state of the finding repaired in 2d65959, should it come back: attribute it by mechanism (it must come from replayed
           # doc actions that change a column type), then write other values into those cells (the
           # engine skips an update whose encoding is unchanged) and go on with a sane document.
           replayed = tag in ('undo', 'redo') and any(a[0] == 'ModifyColumn' and 'type' in a[3] for a in actions[0][1])
